@@ -251,7 +251,10 @@ impl Substream {
             substream,
             codec,
             substream_id,
-            read_buffer: BytesMut::zeroed(1024),
+            read_buffer: BytesMut::zeroed(match codec {
+                ProtocolCodec::Identity(payload_size) => payload_size,
+                _ => 1024,
+            }),
             offset: 0usize,
             pending_frames: VecDeque::new(),
             current_frame_size: None,
